@@ -1,5 +1,324 @@
-//! sim `bootcache` — skeleton, to be filled in (see /verif/DESIGN.md section 5).
+//! sim `bootcache`: 1..4 "processes", each a real `ant_bootstrap::BootstrapCacheStore`, all flushing to one
+//! cache file. Every flush runs on its own OS thread and parks at the guarded gates between its steps
+//! (loaded / merged / temp file opened / bytes written / commit); the simulator releases exactly one
+//! parked writer at a time, injects corrupt / foreign files, crashes writers at gates, and loads the
+//! shared file with the real `load_cache_data` after every step. Serves C18.
+
+mod model;
+mod world;
+
+use serde::{Deserialize, Serialize};
+use simkit::{GenCtx, PropertySpec, Rng, RunReport, Sim, Tier};
+
+#[derive(Serialize, Deserialize, Clone, Debug, PartialEq)]
+pub struct CraftEnt {
+    pub peer: usize,
+    pub var: usize,
+    pub succ: u32,
+    pub fail: u32,
+    /// age class, see model::crafted_age
+    pub age: u8,
+}
+
+#[derive(Serialize, Deserialize, Clone, Debug, PartialEq)]
+#[serde(tag = "t")]
+pub enum Step {
+    /// `add_addr` on process `proc` (modulo the number of processes) of the address (peer, var) in `shape`.
+    Add { proc: usize, peer: usize, var: usize, shape: u8, relay: usize },
+    /// `update_addr_status(addr, success)` repeated `times` times.
+    Status { proc: usize, peer: usize, var: usize, success: bool, times: u8 },
+    Remove { proc: usize, peer: usize, var: usize },
+    Cleanup { proc: usize },
+    /// Start `sync_and_flush_to_disk(cleanup)` on a writer thread; it runs until its first gate.
+    /// detach = as the node does it (flush a clone, continue with a fresh empty store);
+    /// otherwise the process is busy until the flush ends (as antnode's start-up flush).
+    Flush { proc: usize, cleanup: bool, detach: bool },
+    /// Start a plain `write()` (no sync) on a writer thread.
+    Write { proc: usize },
+    /// Release the `sel`-th parked writer (modulo how many are parked; u32::MAX = the last) for one step.
+    Run { sel: u32 },
+    /// Release parked writers in FIFO order until none is left.
+    Settle,
+    /// A well-behaved other program replaces the cache file (temp file + rename) with this valid content.
+    Craft { entries: Vec<CraftEnt> },
+    /// The process exits without flushing and starts again (memory lost). Skipped while it has a flush in flight.
+    Restart { proc: usize },
+    /// FAULT: overwrite the cache file: 0 truncated, 1 bit flipped, 2 empty, 3 wrong schema.
+    Corrupt { how: u8, arg: u32 },
+    /// FAULT: the cache file is replaced by a well-formed file of another network.
+    Foreign { entries: Vec<CraftEnt> },
+    /// FAULT: the process owning the `sel`-th parked writer is killed: all its parked writers are abandoned.
+    Crash { sel: u32 },
+}
+
+#[derive(Serialize, Deserialize, Clone, Debug)]
+pub struct Plan {
+    pub property: String,
+    pub mode: String,
+    /// seed of the address universe (peer ids)
+    pub ukey: u64,
+    pub n_procs: usize,
+    pub n_peers: usize,
+    pub n_vars: usize,
+    pub max_peers: usize,
+    pub max_addrs: usize,
+    pub expiry_s: u64,
+    pub steps: Vec<Step>,
+}
+
+pub struct BootcacheSim;
+
+fn gen_entries(rng: &mut Rng, n_peers: usize, n_vars: usize, fault: bool, max: usize) -> Vec<CraftEnt> {
+    let n = rng.urange(0, max);
+    let huge = rng.chance(1, 8);
+    let mut seen = std::collections::BTreeSet::new();
+    let mut out = vec![];
+    for _ in 0..n {
+        let peer = rng.usize_below(n_peers);
+        let var = rng.usize_below(n_vars);
+        if !seen.insert((peer, var)) {
+            continue;
+        }
+        let (succ, fail) = if huge && rng.chance(1, 2) {
+            let big = [u32::MAX, u32::MAX - 1, 1 << 31, (1 << 31) + 7, u32::MAX - 3];
+            (*rng.pick(&big), if rng.chance(1, 2) { *rng.pick(&big) } else { rng.below(4) as u32 })
+        } else {
+            match rng.below(6) {
+                0 => (0, 0),
+                1 => (rng.range(1, 5) as u32, rng.range(1, 5) as u32),
+                2 => (rng.range(0, 2) as u32, rng.range(2, 6) as u32), // failing
+                _ => (rng.range(1, 9) as u32, rng.range(0, 1) as u32),
+            }
+        };
+        // ages: mostly fresh, some expired, future stamps (clock skew) only in fault mode
+        let age = match rng.below(10) {
+            0..=5 => rng.below(5) as u8,
+            6..=8 => 5 + rng.below(4) as u8,
+            _ => {
+                if fault {
+                    9 + 10 * rng.below(3) as u8
+                } else {
+                    rng.below(9) as u8
+                }
+            }
+        };
+        out.push(CraftEnt { peer, var, succ, fail, age });
+    }
+    out
+}
+
+impl Sim for BootcacheSim {
+    type Plan = Plan;
+    const NAME: &'static str = "bootcache";
+
+    fn properties() -> Vec<PropertySpec> {
+        vec![PropertySpec {
+            id: "C18",
+            level: "exploration",
+            modes: vec!["nofault", "fault"],
+            quick_runs: 24_000,
+            thorough_runs: 600_000,
+            rule: "One run = one seeded plan over 1..4 processes (real BootstrapCacheStore each) sharing one cache file in a private tmpfs directory: add_addr in six multiaddress shapes, update_addr_status, remove_addr, perform_cleanup, sync_and_flush_to_disk(true|false) and write() executed on writer threads that park at the guarded gates between load / merge+cleanup / open / write / commit, the simulator releasing one parked writer at a time; crafted valid files with last_seen >= 61 s either side of the expiry boundary; limits 1..5 peers, 1..3 addresses per peer, expiry 10 min / 1 h / 24 h. Mode fault adds corrupt files (truncated, bit flip, empty, wrong schema), files of another network, future-dated stamps and processes killed at a gate (their temp files are left behind as after a kill). After every step the real load_cache_data reads the shared file and is compared with an own reader of the file format; if a flush leaves the inode unchanged every byte prefix of the new content is loaded as a crash state. Non-trivial = >=3 operations and (>=1 non-FIFO release or >=1 fired fault); distinct = distinct fingerprint of the executed release decisions and faults.",
+            assumptions: vec![
+                "writer steps between two gates are atomic with respect to other writers (one thread runs at a time); overlap inside a single write(2) of an in-place replacement is covered by the prefix enumeration",
+                "crash = the process is killed, the OS survives: a renamed file is durable, an uncommitted temp file stays in the directory (atomic-write-file 0.2.2 without the unnamed-tmpfile feature uses a named temp file; the sim re-creates it after unwinding the writer thread)",
+                "timestamps are placed >= 61 s from every boundary and a run lasts milliseconds, so the wall clock never decides a comparison (a run longer than 20 s is a harness error)",
+                "getrandom is the only entropy source (HashMap order, temp file names); writer threads reseed the shim with a seed derived from the run's entropy",
+                "all processes of one run use the same limits and expiry",
+            ],
+        }]
+    }
+
+    fn generate(rng: &mut Rng, ctx: &GenCtx) -> Plan {
+        let fault = ctx.mode == "fault";
+        let n_procs = rng.urange(1, 4);
+        let max_peers = rng.urange(1, 5);
+        let max_addrs = rng.urange(1, 3);
+        // half of the runs keep the universe inside the limits, so merge results are exactly determined
+        let n_peers = if rng.chance(1, 2) { rng.urange(1, max_peers) } else { rng.urange(1, 7) };
+        let n_vars = if rng.chance(1, 2) { rng.urange(1, max_addrs) } else { rng.urange(1, 4) };
+        let expiry_s = *rng.pick(&[600u64, 3600, 86400]);
+        let n_steps = match ctx.tier {
+            Tier::Quick => rng.urange(5, 50),
+            Tier::Thorough => rng.urange(5, 90),
+        };
+        // swarm style: weights of this run
+        let w_add = rng.range(15, 40);
+        let w_status = rng.range(3, 20);
+        let w_remove = if rng.chance(1, 2) { rng.range(1, 8) } else { 0 };
+        let w_cleanup = rng.range(0, 6);
+        let w_flush = rng.range(6, 20);
+        let w_write = if rng.chance(1, 3) { rng.range(1, 3) } else { 0 };
+        let w_run = rng.range(10, 45);
+        let w_settle = rng.range(1, 5);
+        let w_craft = rng.range(0, 4);
+        let w_restart = rng.range(0, 2);
+        let w_corrupt = if fault { rng.range(1, 5) } else { 0 };
+        let w_foreign = if fault && rng.chance(1, 2) { rng.range(1, 2) } else { 0 };
+        let w_crash = if fault { rng.range(0, 4) } else { 0 };
+        let weights = [
+            w_add, w_status, w_remove, w_cleanup, w_flush, w_write, w_run, w_settle, w_craft, w_restart,
+            w_corrupt, w_foreign, w_crash,
+        ];
+        let sched = rng.below(4); // 0 fifo, 1/3 random, 2 newest first
+        let p_cleanup = rng.range(1, 9); // of 10: share of flushes with clean-up
+        let p_detach = rng.range(0, 10);
+        let p_bad_shape = rng.range(0, 4); // of 10
+        let mut steps = Vec::with_capacity(n_steps + 4);
+        if rng.chance(1, 2) {
+            steps.push(Step::Craft {
+                entries: gen_entries(rng, n_peers, n_vars, fault, 10),
+            });
+        }
+        let mut recent: Vec<(usize, usize)> = vec![];
+        let mut after_corrupt = false;
+        for _ in 0..n_steps {
+            let proc = rng.usize_below(n_procs);
+            // bias: after a corruption a flush often follows, after a flush start a release often follows
+            let kind = if after_corrupt && rng.chance(1, 2) { 4 } else { rng.weighted(&weights) };
+            after_corrupt = false;
+            let pick_known = |rng: &mut Rng, recent: &Vec<(usize, usize)>| {
+                if !recent.is_empty() && rng.chance(3, 4) {
+                    *rng.pick(recent)
+                } else {
+                    (rng.usize_below(n_peers), rng.usize_below(n_vars))
+                }
+            };
+            let s = match kind {
+                0 => {
+                    let dup = !recent.is_empty() && rng.chance(1, 6);
+                    let (peer, var) = if dup {
+                        *rng.pick(&recent)
+                    } else {
+                        (rng.usize_below(n_peers), rng.usize_below(n_vars))
+                    };
+                    let shape = if rng.below(10) < p_bad_shape { rng.range(1, model::N_SHAPES as u64 - 1) as u8 } else { 0 };
+                    if shape == 0 {
+                        recent.push((peer, var));
+                    }
+                    Step::Add { proc, peer, var, shape, relay: rng.usize_below(n_peers) }
+                }
+                1 => {
+                    let (peer, var) = pick_known(rng, &recent);
+                    Step::Status { proc, peer, var, success: rng.chance(2, 5), times: rng.range(1, 3) as u8 }
+                }
+                2 => {
+                    let (peer, var) = pick_known(rng, &recent);
+                    Step::Remove { proc, peer, var }
+                }
+                3 => Step::Cleanup { proc },
+                4 => Step::Flush {
+                    proc,
+                    cleanup: rng.below(10) < p_cleanup,
+                    detach: rng.below(10) < p_detach,
+                },
+                5 => Step::Write { proc },
+                6 => Step::Run {
+                    sel: match sched {
+                        0 => 0,
+                        2 => u32::MAX,
+                        _ => rng.below(1 << 16) as u32,
+                    },
+                },
+                7 => Step::Settle,
+                8 => Step::Craft { entries: gen_entries(rng, n_peers, n_vars, fault, 10) },
+                9 => Step::Restart { proc },
+                10 => {
+                    after_corrupt = true;
+                    Step::Corrupt { how: rng.below(4) as u8, arg: rng.next_u64() as u32 }
+                }
+                11 => {
+                    after_corrupt = true;
+                    Step::Foreign { entries: gen_entries(rng, n_peers, n_vars, false, 6) }
+                }
+                _ => Step::Crash { sel: rng.below(1 << 16) as u32 },
+            };
+            let started = matches!(s, Step::Flush { .. } | Step::Write { .. });
+            steps.push(s);
+            if started && rng.chance(1, 3) {
+                for _ in 0..rng.urange(1, 3) {
+                    steps.push(Step::Run { sel: if sched == 0 { 0 } else { rng.below(1 << 16) as u32 } });
+                }
+            }
+        }
+        steps.push(Step::Settle);
+        Plan {
+            property: ctx.property.clone(),
+            mode: ctx.mode.clone(),
+            ukey: rng.next_u64(),
+            n_procs,
+            n_peers,
+            n_vars,
+            max_peers,
+            max_addrs,
+            expiry_s,
+            steps,
+        }
+    }
+
+    fn execute(plan: &Plan, entropy: u64) -> RunReport {
+        world::execute(plan, entropy)
+    }
+
+    fn shrink(plan: &Plan) -> Vec<Plan> {
+        let mut out = vec![];
+        for steps in simkit::shrink::remove_chunks(&plan.steps) {
+            let mut p = plan.clone();
+            p.steps = steps;
+            out.push(p);
+        }
+        for steps in simkit::shrink::simplify_each(&plan.steps, |s| match s {
+            Step::Run { sel } if *sel != 0 => vec![Step::Run { sel: 0 }],
+            Step::Crash { sel } if *sel != 0 => vec![Step::Crash { sel: 0 }],
+            Step::Craft { entries } if !entries.is_empty() => {
+                let mut alts = vec![];
+                for i in 0..entries.len() {
+                    let mut e = entries.clone();
+                    e.remove(i);
+                    alts.push(Step::Craft { entries: e });
+                }
+                alts
+            }
+            Step::Foreign { entries } if entries.len() > 1 => {
+                vec![Step::Foreign { entries: entries[..1].to_vec() }]
+            }
+            Step::Status { proc, peer, var, success, times } if *times > 1 => vec![Step::Status {
+                proc: *proc,
+                peer: *peer,
+                var: *var,
+                success: *success,
+                times: times - 1,
+            }],
+            Step::Flush { proc, cleanup, detach: true } => vec![Step::Flush { proc: *proc, cleanup: *cleanup, detach: false }],
+            Step::Add { proc, peer, var, shape, relay } if *proc != 0 => {
+                vec![Step::Add { proc: 0, peer: *peer, var: *var, shape: *shape, relay: *relay }]
+            }
+            _ => vec![],
+        }) {
+            let mut p = plan.clone();
+            p.steps = steps;
+            out.push(p);
+        }
+        if plan.n_procs > 1 {
+            let mut p = plan.clone();
+            p.n_procs -= 1;
+            out.push(p);
+        }
+        out
+    }
+
+    fn components() -> Vec<(&'static str, &'static str)> {
+        vec![
+            ("BootstrapCacheStore (add_addr, update_addr_status, remove_addr, perform_cleanup, sync_and_flush_to_disk, write, load_cache_data), CacheData / BootstrapAddresses / BootstrapAddr sync, craft_valid_multiaddr", "real"),
+            ("atomic-write-file 0.2.2 (named temp file + rename) on a per-run tmpfs directory", "real"),
+            ("the node's periodic flush (driver.rs: clone the store, continue with a fresh empty one, flush the clone in a spawned task)", "mirrored: Flush{detach:true} does the same three statements, the spawned task is a writer thread"),
+            ("several node/client processes sharing the cache file", "stub: one OS thread per flush inside one process, parked at guarded gates and released one at a time by the simulator"),
+            ("process kill", "stub: the parked writer thread unwinds out of the code under test; the temp files its destructors removed are re-created byte for byte"),
+            ("wall clock", "real, never decisive: stamps are >= 61 s from every boundary"),
+        ]
+    }
+}
+
 fn main() {
-    eprintln!("HARNESS-ERROR: sim bootcache not built yet");
-    std::process::exit(2);
+    simkit::check::main::<BootcacheSim>();
 }
